@@ -186,6 +186,16 @@ def run(prop, tier):
             v.add(key='C05:%s' % x['clause'].split('.', 1)[1], clause=x['clause'],
                   what='non-grid buffer run %d departure %d fails %s' % (x['tid'], x['k'], x['clause']),
                   replay={'pipeline': 'floor', 'buffloat_seed': x['seed']})
+    if prop == 'C16':
+        # "the system's net value is the sum over its registered assets", also for assets created while running:
+        # evaluated on the lifecycle traces (LifecycleTrace.tla, clause C16.*)
+        from . import p_lifecycle
+        lres = p_lifecycle.COMP.result(tier)
+        for x in lres['violations']:
+            if x['clause'].startswith('C16.'):
+                v.add(key='C16:%s' % x['clause'].split('.', 1)[1], clause=x['clause'],
+                      what='lifecycle trace %d line %d fails %s' % (x['tid'], x['k'], x['clause']),
+                      replay={'pipeline': 'lifecycle', 'ops': x['scenario'].get('ops'), 'seed': x['scenario'].get('seed')})
     pool_lines = 0
     if prop == 'C15':
         # the resource-record clauses are also evaluated on the pool traces (PoolsTrace.tla, clauses C15.*)
